@@ -375,6 +375,15 @@ class VectorizedOptimizer(Generic[_S]):
     """
     jax.monitoring.record_event('/vizier/jax/vectorized_optimizer/call/traced')
     start_time = datetime.datetime.now()
+    num_evaluations = (
+        (self.max_evaluations - 1) // self.suggestion_batch_size + 1
+    ) * self.suggestion_batch_size
+    if count > num_evaluations:
+      raise ValueError(
+          f'count ({count}) is larger than the number of evaluations'
+          f' ({num_evaluations}); the optimizer cannot return more candidates'
+          ' than it evaluates.'
+      )
     seed = jax.random.PRNGKey(0) if seed is None else seed
     seed, acq_fn_seed = jax.random.split(seed)
 
